@@ -49,3 +49,6 @@ def run(ctx):
     from . import c11
 
     c11.adjacency(ctx)
+    from .. import intwidth
+
+    intwidth.int_narrowing(ctx)  # 'orders raised': the offset tables grow with the order; they must not wrap
